@@ -70,12 +70,36 @@ fn any_stats_header() -> bool {
     s.size() == a.size() && s.capacity() == a.capacity() && s.allocated() == a.allocated()
 }
 
+/// C06-a: `owned_slice::Drain::drop` drops un-pulled zero-sized elements twice
+fn zst_drain_double_drop() -> bool {
+    use std::sync::atomic::{AtomicUsize, Ordering};
+    static DROPS: AtomicUsize = AtomicUsize::new(0);
+    struct Z;
+    impl Drop for Z {
+        fn drop(&mut self) {
+            DROPS.fetch_add(1, Ordering::SeqCst);
+        }
+    }
+    let bump: Bump = Bump::new();
+    let mut v = bump_scope::BumpVec::new_in(&bump);
+    for _ in 0..5 {
+        v.push(Z);
+    }
+    drop(v.drain(1..4));
+    let after_drain = DROPS.load(Ordering::SeqCst);
+    drop(v);
+    let total = DROPS.load(Ordering::SeqCst);
+    println!("5 zero-sized values: {after_drain} destructor calls after dropping drain(1..4) (expected 3), {total} in total (expected 5)");
+    after_drain == 3 && total == 5
+}
+
 fn main() {
     let which = std::env::args().nth(1).unwrap_or_default();
     let ok = match which.as_str() {
         "reset_to_lower_aligned_checkpoint" => reset_to_lower_aligned_checkpoint(),
         "without_shrink_unfit" => without_shrink_unfit(),
         "any_stats_header" => any_stats_header(),
+        "zst_drain_double_drop" => zst_drain_double_drop(),
         _ => {
             eprintln!("usage: findings reset_to_lower_aligned_checkpoint|without_shrink_unfit|any_stats_header");
             std::process::exit(2);
